@@ -229,6 +229,14 @@ M = [('r3_revert_D3_eventmonitor_port',
   [('        return isinstance(other, PinSignature)\n',
     '        return self is other\n')],
   None),
+ # D13 reverted: features validated in one traversal and stored from a second one
+ ('r18_D13_features_traversed_twice',
+  'amaranth_soc/wishbone/bus.py',
+  [('        features = frozenset(Feature(f) for f in features) # raises ValueError if a feature is invalid\n',
+    '        for feature in features:\n            Feature(feature) # raises ValueError if feature is invalid\n'),
+   ('        self._features    = features\n',
+    '        self._features    = frozenset(Feature(f) for f in features)\n')],
+  None),
  ('r17_D12_pinsignature_eq_constant',
   'amaranth_soc/gpio.py',
   [('        return isinstance(other, PinSignature)\n',
